@@ -169,9 +169,8 @@ def weight_index(arcs):
 
 def path_problem(path, source, goals, widx, objective=None, tol=0):
     """None if `path` is a genuine source->goal walk over existing arcs whose weights (some
-    choice among parallel arcs) sum to `objective`; otherwise a short description.
-
-    Returns the set of achievable sums through `path_sums` when objective is None.
+    choice among parallel arcs) sum to `objective` (exactly, or within relative `tol`); otherwise a
+    short description.  objective=None checks only the walk.  `widx` comes from weight_index().
     """
     if not isinstance(path, (list, tuple)) or len(path) == 0:
         return f"not a non-empty sequence: {path!r}"
@@ -185,10 +184,6 @@ def path_problem(path, source, goals, widx, objective=None, tol=0):
         if not ws:
             return f"uses the non-edge {a!r}->{b!r}"
         sums = {s + w for s in sums for w in ws}
-        if len(sums) > 4096:
-            lo = min(sums)
-            sums = set(sorted(sums)[:4096])
-            sums.add(lo)
     if objective is None:
         return None
     try:
